@@ -20,6 +20,19 @@ type SchedFields struct {
 	LastError, Handlers, Canceled  string
 }
 
+// schedOwners: the Scheduler and the structs of its package it embeds by value - a
+// field of the scheduler may live in either (`sc.canceled` = `sc.runState.canceled`).
+var schedOwners = map[string]bool{"Scheduler": true}
+
+// isSchedOwner: t (or what it points to) is the Scheduler or a struct embedded in it.
+func isSchedOwner(t types.Type) bool {
+	n := ir.NamedType(derefT(t))
+	if !strings.Contains(n, schedRel+".") {
+		return false
+	}
+	return schedOwners[n[strings.LastIndex(n, ".")+1:]]
+}
+
 // AgentDry is the Agent's field that agent.New fills from Options.Dry.
 func (e *Env) agentDryField() string {
 	an := e.FnQuiet("internal/agent", "New")
@@ -92,8 +105,21 @@ func (e *Env) schedFields() *SchedFields {
 		return f
 	}
 	var errFields, handlerFields []string
+	// the scheduler's own fields and those of the structs it embeds by value (`runState`)
+	owners := map[string]bool{"Scheduler": true}
+	defer func() { schedOwners = owners }()
+	var fields []*types.Var
 	for i := 0; i < str.NumFields(); i++ {
 		fd := str.Field(i)
+		fields = append(fields, fd)
+		if es, isS := fd.Type().Underlying().(*types.Struct); isS && fd.Embedded() && fd.Pkg() == sp.Pkg {
+			owners[typesName(fd.Type())] = true
+			for j := 0; j < es.NumFields(); j++ {
+				fields = append(fields, es.Field(j))
+			}
+		}
+	}
+	for _, fd := range fields {
 		if ir.NamedType(fd.Type()) == "error" {
 			errFields = append(errFields, fd.Name())
 		}
@@ -132,7 +158,7 @@ func (e *Env) schedFields() *SchedFields {
 							val = x.Call.Args[1]
 						}
 					}
-					if fa == nil || typesName(derefT(fa.X.Type())) != "Scheduler" {
+					if fa == nil || !owners[typesName(derefT(fa.X.Type()))] {
 						continue
 					}
 					if k, isC := ir.ConstInt(val); isC && k != 0 {
